@@ -94,6 +94,11 @@ def int_vars(stmts, seeds=("L", "k")):
 
 
 def _aff_to_ir(a):
+    """canonical IR of an integer-affine value: a number, a variable, or ('aff', ((var, coef), ...), const)"""
+    if not a.c:
+        return ("num", a.k)
+    if len(a.c) == 1 and a.k == 0 and list(a.c.values())[0] == 1:
+        return ("var", list(a.c)[0])
     return ("aff", tuple(sorted((v, c) for v, c in a.c.items())), a.k)
 
 
@@ -108,6 +113,7 @@ class Path:
         self.brk = False
         self.ints = ints
         self.rowvar = rowvar
+        self.acc = []          # (array, index Aff over the start state, 'r' | 'w')
 
     def fork(self):
         p = Path(self.ints, self.rowvar)
@@ -118,6 +124,7 @@ class Path:
         p.key = list(self.key)
         p.subst = dict(self.subst)
         p.brk = self.brk
+        p.acc = list(self.acc)
         return p
 
     # ---- expressions
@@ -229,7 +236,7 @@ class Path:
             self.arr[a] = [(self._aff_sub(i, var, val), sx(v)) for i, v in self.arr[a]]
         for o in self.out:
             self.out[o] = {k: sx(v) for k, v in self.out[o].items()}
-        self.key = [(sx(t), taken) for t, taken in self.key]
+        # decisions already taken keep the test as it was evaluated (siblings of a fork must share it)
 
     @staticmethod
     def _aff_sub(a, var, val):
@@ -247,6 +254,7 @@ class Path:
 
     def read(self, arr, ix):
         a = self.index_aff(ix)
+        self.acc.append((arr, a, "r"))
         for i, v in reversed(self.arr.get(arr, [])):
             d = a - i
             if not d.c:
@@ -254,10 +262,12 @@ class Path:
                     return v
                 continue
             raise Unsupported(f"read {arr}[{a}] after a store to {arr}[{i}] whose relation to it is not decided on this path")
-        return ("sel", arr, _aff_to_ir(a) if a.c else ("num", a.k))
+        return ("sel", arr, _aff_to_ir(a))
 
     def store(self, arr, ix, val):
-        self.arr.setdefault(arr, []).append((self.index_aff(ix), val))
+        a = self.index_aff(ix)
+        self.acc.append((arr, a, "w"))
+        self.arr.setdefault(arr, []).append((a, val))
 
     def array_state(self, arr):
         st = {}
@@ -268,7 +278,7 @@ class Path:
                 d = i2 - i
                 if d.c:
                     raise Unsupported(f"two stores to {arr} with undecided index relation ({i} / {i2})")
-            st[_aff_to_ir(i) if i.c else ("num", i.k)] = v
+            st[_aff_to_ir(i)] = v
         return st
 
 
@@ -413,7 +423,7 @@ def effects(region, rowvar=None, drop_arrays=(), drop_outputs=()):
                 del scal[rowvar]
             elif rowvar and rows and any(rows.values()):
                 raise Unsupported(f"unit {name}: rows written without advancing the row counter")
-            eff[key] = {"scalars": scal, "arrays": {a: p.array_state(a) for a in p.arr if a not in drop_arrays}, "out": outs, "rows": rows,
+            eff[key] = {"acc": list(p.acc), "subst": dict(p.subst), "scalars": scal, "arrays": {a: p.array_state(a) for a in p.arr if a not in drop_arrays}, "out": outs, "rows": rows,
                         "break": p.brk, "keyexpr": [(t, taken) for t, taken in p.key]}
         res[name] = eff
     # state variables: read (as start values) anywhere in some effect or test
@@ -451,6 +461,8 @@ def _rename_expr(e, mp):
     if isinstance(e, tuple):
         if e and e[0] == "var":
             return ("var", mp.get(e[1], e[1]))
+        if e and e[0] == "sel":
+            return ("sel", mp.get("[]" + e[1], e[1]), _rename_expr(e[2], mp))
         if e and e[0] == "aff":
             a = Aff({mp.get(v, v): c for v, c in e[1]}, e[2])
             return _aff_to_ir(a)
@@ -473,8 +485,8 @@ def normal_form(res, state, mp=None, live=None):
         for key, d in res[name].items():
             k2 = tuple(sorted((repr(_rename_expr(t, mp)), taken) for t, taken in d["keyexpr"]))
             sc = {mp.get(v, v): repr(_rename_expr(val, mp)) for v, val in d["scalars"].items() if v in live}
-            ar = {a: {repr(_rename_expr(i, mp)): repr(_rename_expr(v, mp)) for i, v in st.items()} for a, st in d["arrays"].items()}
-            ou = {a: {k: repr(_rename_expr(v, mp)) for k, v in dd.items()} for a, dd in d["out"].items()}
+            ar = {mp.get("[]" + a, a): {repr(_rename_expr(i, mp)): repr(_rename_expr(v, mp)) for i, v in st.items()} for a, st in d["arrays"].items()}
+            ou = {mp.get("[]" + a, a): {k: repr(_rename_expr(v, mp)) for k, v in dd.items()} for a, dd in d["out"].items()}
             eff[k2] = {"scalars": sc, "arrays": ar, "out": ou, "break": d["break"]}
         out[name] = eff
     out["while_cond"] = repr(_rename_expr(res["while_cond"], mp))
